@@ -26,6 +26,10 @@ const (
 	ErrNoFanoutField errorType = "'Fanout' field not present"
 	// ErrHAMTSizeInvalid indicates the HAMT's size property was not an exact power of 2
 	ErrHAMTSizeInvalid errorType = "hamt size should be a power of two"
+	// ErrInvalidBitfield indicates the HAMT node's bitfield holds more bits than its fanout
+	ErrInvalidBitfield errorType = "bitfield does not fit the fanout"
+	// ErrFanoutMismatch indicates a child shard declares a different fanout than its parent
+	ErrFanoutMismatch errorType = "child shard fanout differs from its parent's"
 	// ErrMissingLinkName indicates a link in a HAMT had no Name property (required for all HAMTs)
 	ErrMissingLinkName errorType = "missing link name"
 )
